@@ -114,22 +114,72 @@ def _features_for(envspec: Dict[str, Any], rng) -> Q.Features:
     return Q.Features(functions=fns, max_segs=rng.choice((1, 2, 3, 4)), nested=rng.choice((1, 2, 2)), roots=rng.random() < 0.8)
 
 
+def _containers(v: Any, loc: tuple = ()):
+    if isinstance(v, (list, dict)):
+        yield loc, v
+        for k, c in (v.items() if isinstance(v, dict) else enumerate(v)):
+            yield from _containers(c, loc + (k,))
+
+
+def gen_mutation(rng, shadow: Dict[str, Any]):
+    """A caller-side in-place change of one plain document (applied to the shadow copy too)."""
+    did = rng.choice(sorted(shadow))
+    conts = list(_containers(shadow[did]))
+    if not conts:
+        return None
+    loc, c = conts[0] if rng.random() < 0.5 else rng.choice(conts)
+    value = rng.choice((D.scalar(rng), D.scalar(rng), [D.scalar(rng)], {"a": D.scalar(rng)}))
+    if isinstance(c, dict):
+        r = rng.random()
+        if r < 0.5 and c:
+            op = {"action": "set", "key": rng.choice(sorted(c)), "value": value}
+            c[op["key"]] = copy.deepcopy(value)
+        elif r < 0.75:
+            op = {"action": "set", "key": rng.choice(Q.KEYS), "value": value}
+            c[op["key"]] = copy.deepcopy(value)
+        elif c:
+            op = {"action": "del", "key": rng.choice(sorted(c))}
+            del c[op["key"]]
+        else:
+            return None
+    else:
+        r = rng.random()
+        if r < 0.4:
+            op = {"action": "append", "value": value}
+            c.append(copy.deepcopy(value))
+        elif r < 0.8 and c:
+            op = {"action": "set", "key": rng.randrange(len(c)), "value": value}
+            c[op["key"]] = copy.deepcopy(value)
+        elif c:
+            op = {"action": "pop"}
+            c.pop()
+        else:
+            return None
+    return {"op": "mutate_doc", "doc": did, "path": list(loc), **op}
+
+
 def gen_history(rng, faults: bool) -> Dict[str, Any]:
     ops: List[Dict[str, Any]] = []
     knobs = {"regex_maxcache": rng.choice((1, 2, 5, None, None))}
     # documents
     ndocs = rng.choice((1, 2, 2, 3))
     docs = []
+    shadow: Dict[str, Any] = {}  # generator-side copy of plain documents (for caller mutations)
     for i in range(ndocs):
         did = f"d{i}"
         if i > 0 and rng.random() < 0.25:
-            ops.append({"op": "new_doc", "id": did, "spec": {"wrap": rng.choice(docs), "as": rng.choice(("list", "dict"))}})
+            src = rng.choice(docs)
+            shadow.pop(src, None)
+            ops.append({"op": "new_doc", "id": did, "spec": {"wrap": src, "as": rng.choice(("list", "dict"))}})
         elif i > 0 and rng.random() < 0.4:
             base = next(o for o in ops if o["op"] == "new_doc" and "json" in o["spec"])["spec"]["json"]
-            ops.append({"op": "new_doc", "id": did, "spec": {"json": perturb(rng, copy.deepcopy(base))}})
+            tree = perturb(rng, copy.deepcopy(base))
+            ops.append({"op": "new_doc", "id": did, "spec": {"json": tree}})
+            shadow[did] = copy.deepcopy(tree)
         else:
             tree = D.random_tree(rng, max_nodes=rng.choice((6, 12, 25, 60)), max_depth=rng.choice((3, 5, 8)))
             ops.append({"op": "new_doc", "id": did, "spec": {"json": tree}})
+            shadow[did] = copy.deepcopy(tree)
         docs.append(did)
     # environments: specs are tracked here so the query generator knows the registries
     envspecs: Dict[str, Dict[str, Any]] = {"module": {"module": True}}
@@ -155,7 +205,7 @@ def gen_history(rng, faults: bool) -> Dict[str, Any]:
         ops.append({"op": "new_env", "id": eid, "spec": copy.deepcopy(spec)})
         envspecs[eid] = spec
     envs = sorted(envspecs)
-    enabled = {k for k in ("register", "compile", "apply", "env_call", "module_call", "iter", "copy", "invalid", "late_env") if rng.random() < 0.8}
+    enabled = {k for k in ("register", "compile", "apply", "env_call", "module_call", "iter", "copy", "invalid", "late_env", "mutate") if rng.random() < 0.8}
     enabled |= {"compile", "apply"}
     use_faults = faults and rng.random() < 0.9
     # query pool (generated against a random environment's registry -> name/type collisions)
@@ -196,6 +246,14 @@ def gen_history(rng, faults: bool) -> Dict[str, Any]:
             ops.append({"op": "apply", "c": cid, "doc": d2, "entry": rng.choice(ENTRIES)})
             continue
         r = rng.random()
+        if "mutate" in enabled and shadow and rng.random() < 0.07:
+            mop = gen_mutation(rng, shadow)
+            if mop is not None:
+                ops.append(mop)
+                # ... and right away the same compiled query / call again on the changed document
+                if compiled and rng.random() < 0.7:
+                    ops.append({"op": "apply", "c": rng.choice(compiled), "doc": mop["doc"], "entry": rng.choice(ENTRIES)})
+            continue
         if r < 0.12 and "register" in enabled:
             e = rng.choice([x for x in envs if x != "module"])
             name = rng.choice(FNAMES)
